@@ -12,6 +12,7 @@ def parseOp (s : String) : Option SOp :=
   | ["commit"] => some .commit
   | ["txncommit"] => some .txnCommit
   | ["beginblock"] => some .beginBlock
+  | ["savepoint"] => some .savepoint
   | ["query"] => some .query
   | ["rollback"] => some .rollback
   | ["close"] => some .close
